@@ -59,6 +59,23 @@ func Violation(sig, msg string, c any) {
 	emit(map[string]any{"kind": "violation", "sig": sig, "msg": msg, "case": c})
 }
 
+var devSeen = map[string]int{}
+
+// Deviation records that the real code took a *named* deviation from the property that the
+// model knows about (a known finding). It does not count towards Violations(); the driver
+// turns it into a KNOWN-FINDING line when known_findings.json lists an open finding whose
+// signature matches, and into a VIOLATION otherwise. At most 3 records per signature.
+func Deviation(sig, msg string, c any) {
+	mu.Lock()
+	devSeen[sig]++
+	n := devSeen[sig]
+	mu.Unlock()
+	if n > 3 {
+		return
+	}
+	emit(map[string]any{"kind": "deviation", "sig": sig, "msg": msg, "case": c})
+}
+
 // Violations returns the number of violations reported so far.
 func Violations() int { mu.Lock(); defer mu.Unlock(); return nviol }
 
